@@ -456,7 +456,14 @@ fn oracle(case: &Case, obs: &mut Obs) -> Result<(), Fail> {
 	for r in &case.requests {
 		let b = &built[pick(r.src as u32, built.len())];
 		let parts = expand(b, &r.coord);
-		let spelled: Vec<(String, PC)> = parts.iter().map(spell).collect();
+		let mut spelled: Vec<(String, PC)> = parts.iter().map(spell).collect();
+		// only the last part may carry text behind its digits (`<y>[.ext]`): a zoom or column spelled
+		// `3abc`, `0x10` or `1e3` is not a number
+		for (i, p) in parts.iter().enumerate().take(2) {
+			if matches!(p, Part::Trail(..) | Part::Hex(..) | Part::Exp(..)) {
+				spelled[i].1 = PC::NonNum;
+			}
+		}
 		let ext = r.ext.map(|i| EXTS[i as usize % EXTS.len()]).unwrap_or("");
 		if spelled.iter().all(|(s, _)| s.is_empty()) && ext.is_empty() {
 			// `/tiles/<id>///` has no path parts at all: outside the stated request form
@@ -656,12 +663,12 @@ fn main() {
 	let mut check = Check::from_args(
 		"C05",
 		"exploration",
-		"case = one `versatiles serve` process (best or --fast) with 1-3 tile sources: versatiles / tar / directory for every (format, compression) pair, pmtiles and mbtiles for the pairs they can hold, written by the repository's writer or by the harness's independent encoder, 1-3 levels up to zoom 31, payloads really compressed with the declared compression; source id given as path[id], [id]path, path#id or derived from the file name; 1-399 requests per case: stored tiles, neighbours, random coordinates of a stored level, x/y beyond the level (2^z+k, near u32::MAX, above 2^32), any zoom 0-31, zoom 32-999, free spellings of the three parts (canonical, +n, -n, leading zeros, empty, words, non-ASCII digits, 11-2000 digit numbers, digits with trailing text, hex, exponent), optional .ext on y; Accept-Encoding absent or an ordered subset of {gzip, br, deflate, identity, zstd} in random letter case with optional q weights in (0,1]; oracle per request: complete HTTP response; canonical in-range coordinate with a stored tile => 200, Content-Type = media type of the format, Content-Encoding absent or listed by the client, decoded body = raw payload; canonical in-range without tile => 404; non-numeric part => 400; out of range / empty part => 400 or 404; ambiguous spellings => 200/400/404 and a 200 body must be the tile of a plausible reading; non-trivial request = stored tile whose Accept-Encoding excludes the stored compression or lists a better one, or an out-of-range coordinate; distinct = distinct cases containing such a request",
+		"case = one `versatiles serve` process (best or --fast) with 1-3 tile sources: versatiles / tar / directory for every (format, compression) pair, pmtiles and mbtiles for the pairs they can hold, written by the repository's writer or by the harness's independent encoder, 1-3 levels up to zoom 31, payloads really compressed with the declared compression; source id given as path[id], [id]path, path#id or derived from the file name; 1-399 requests per case: stored tiles, neighbours, random coordinates of a stored level, x/y beyond the level (2^z+k, near u32::MAX, above 2^32), any zoom 0-31, zoom 32-999, free spellings of the three parts (canonical, +n, -n, leading zeros, empty, words, non-ASCII digits, 11-2000 digit numbers, digits with trailing text, hex, exponent), optional .ext on y; Accept-Encoding absent or an ordered subset of {gzip, br, deflate, identity, zstd} in random letter case with optional q weights in (0,1]; oracle per request: complete HTTP response; canonical in-range coordinate with a stored tile => 200, Content-Type = media type of the format, Content-Encoding absent or listed by the client, decoded body = raw payload; canonical in-range without tile => 404; non-numeric part (also digits followed by text in z or x) => 400; out of range / empty part => 400 or 404; ambiguous spellings => 200/400/404 and a 200 body must be the tile of a plausible reading; non-trivial request = stored tile whose Accept-Encoding excludes the stored compression or lists a better one, or an out-of-range coordinate; distinct = distinct cases containing such a request",
 	);
 	check.assume("media types are the ones the repository documents in TileFormat::as_mime_str (pbf: application/x-protobuf, which is the de-facto type, not the registered application/vnd.mapbox-vector-tile)");
 	check.assume("flate2 / brotli crates as reference decoders of Content-Encoding; a zstd-encoded response could not be decoded by the harness and would be reported");
 	check.assume("a request with an empty path part (`/3//2`) is read by some as two parts (outside the stated form) and by others as an unparsable coordinate: 400 and 404 are both accepted");
-	check.assume("spellings such as +3, 03, 3abc, -0, non-ASCII digits, 0x10, 1e3 are ambiguous: only `complete response`, `status in {200,400,404}` and `a 200 carries the tile of a plausible reading` are asserted");
+	check.assume("spellings such as +3, 03, -0, non-ASCII digits, and 3abc / 0x10 / 1e3 in the last part (which may carry an extension) are ambiguous: only `complete response`, `status in {200,400,404}` and `a 200 carries the tile of a plausible reading` are asserted");
 	check.assume("containers written by the repository's writers are trusted to hold the model's tiles (that is C01's subject); containers written by the harness encoders are trusted to be readable (C16)");
 	vt::engine::watchdog(3400);
 	check.workers = check.workers.min(6);
